@@ -459,7 +459,9 @@ class Den:
 
     def d_TypeCast(self, e, env):
         inner = as_int(self.rec(e.inner_expr, env))
-        if self.cast_identity:
+        ident = self.cast_identity(e) if callable(self.cast_identity) \
+            else self.cast_identity
+        if ident:
             # exact arithmetic: a cast to the (wider) result dtype keeps the
             # value -- stated assumption of the C01/C19 contracts
             return inner
